@@ -182,7 +182,7 @@ fn cfg_of(_: &Case) -> Cfg {
 }
 
 pub fn cases(tier: Tier) -> Vec<Case> {
-    let n = if tier.is_quick() { 3 } else { 4 };
+    let n = if tier.is_quick() { 3 } else { 5 };
     let kinds = [(false, false), (true, false), (false, true), (true, true)];
     let mut streams: Vec<Vec<(bool, bool)>> = vec![];
     let mut cur: Vec<Vec<(bool, bool)>> = vec![vec![]];
@@ -283,7 +283,7 @@ pub fn scenarios(tier: Tier) -> Vec<Scenario> {
         for carrier in [false, true] {
             let r = Race { stream: s.clone(), carrier };
             let name = format!("{:?}", r);
-            v.push(Scenario::new(name, sched_cfg(), 3, move || race_body(&r)));
+            v.push(Scenario::new(name, sched_cfg(), if tier.is_quick() { 3 } else { 4 }, move || race_body(&r)));
         }
     }
     v
@@ -314,7 +314,7 @@ pub fn run(tier: Tier, _part: bool) -> i32 {
     let tot = e1::run_scenarios(&mut rep, &scs, &e1::strict_judge, if tier.is_quick() { 20.0 } else { 1500.0 });
     rep.set("evaluations", json!(n + tot.execs));
     rep.set("distinct_nontrivial", json!(distinct.len() as u64 + tot.with_switch));
-    rep.set("rule", json!("E2 case = (stream of <= 3 (4) sends over {small, 3-packet} x {plain, sender+region attached}, position of the drop 0..=n, dropper in {same thread, other thread, forked process that exits}, receiver held directly / inside an undelivered message of a carrier that is dropped / in transit and unpacked at that position), SIGPIPE reset to its default disposition, single task under the scheduler; E1: one evaluation = one schedule (<= bound deviations) of a dropper task racing the stream; non-trivial = at least one send after the drop"));
+    rep.set("rule", json!("E2 case = (stream of <= 3 (5) sends over {small, 3-packet} x {plain, sender+region attached}, position of the drop 0..=n, dropper in {same thread, other thread, forked process that exits}, receiver held directly / inside an undelivered message of a carrier that is dropped / in transit and unpacked at that position), SIGPIPE reset to its default disposition, single task under the scheduler; E1: one evaluation = one schedule (<= bound deviations) of a dropper task racing the stream; non-trivial = at least one send after the drop"));
     rep.set("exhaustive", json!(!tot.capped));
     rep.sample(json!({"case": cs[cs.len() / 2]}));
     rep.assume("sends racing the drop may return either result; only sends begun after the drop completed must fail, only sends returned before it began must succeed");
